@@ -178,6 +178,12 @@ func (p *Parser) ParseFile(filename string, varPool *VarPool) (*MetaData, []*Bui
 		return nil, nil, fmt.Errorf("find inject directives: %w", err)
 	}
 
+	// The injector functions are package-level names of the generated file: a name the
+	// generator picks later (the import of context or errgroup, a variable) must avoid them.
+	for _, build := range builds {
+		_ = varPool.GetName(build.InjectorName)
+	}
+
 	return metaData, builds, nil
 }
 
